@@ -468,6 +468,8 @@ class Run:
             self.faults[kk] = self.faults.get(kk, 0) + v
         for kk, v in fp.extra_fired.items():
             self.extra[kk] = self.extra.get(kk, 0) + v
+        for kk, v in fp.where.items():
+            self.probe("hit:" + kk, v)
         listed_fault = bool(fp.fired) or bool(dev_fired)
         extra_fault = bool(fp.extra_fired)
         hist = core.history[h0:]
